@@ -13,6 +13,7 @@ faults  ok | skip | content | cpe | timeout | boom | boom2
 multi   datasource only: 0 = scalar value, k >= 1 = list of k elements (a parser on it runs per element)
 efaults parser only: fault of the e-th element invocation (cycled) when its input is a list
 coe     parser only: continue_on_error
+prio    optional, regpoint / datasource only (default 0): RegistryPoint(prio=N) / datasource(..., prio=N)
 
 Bodies append to a per-case log and return deterministic values that embed a digest of their
 arguments, so any change in what a dependency produced is visible in every dependent's value.
@@ -171,6 +172,7 @@ class Built(object):
         self.raised = {}       # (i, elem|None) -> exception object raised by the body
         self.extra = []        # other registered objects to clean up (spec set classes)
         self.index = {}
+        self.hook = None       # optional callable(i, type, elem) run inside every body after the call is logged
 
 
 def _plain_type():
@@ -209,7 +211,9 @@ def build(case):
     rp_names = dict((i, "rp%d_%d" % (uid, i)) for i, nd in enumerate(nodes) if nd["t"] == "regpoint")
     reg_cls = None
     if rp_names:
-        dct = dict((name, RegistryPoint(multi_output=True)) for name in rp_names.values())
+        # optional node key "prio" (default 0): the documented RegistryPoint(prio=N) spec option
+        dct = dict((name, RegistryPoint(multi_output=True, prio=int(nodes[i].get("prio", 0))))
+                   for i, name in rp_names.items())
         dct["__module__"] = MODNAME
         reg_cls = type("Reg%d" % uid, (SpecSet,), dct)
         b.extra.append(reg_cls)
@@ -254,6 +258,8 @@ def build(case):
                 args = tuple(a)
                 fault = _nd["fault"]
             b.log.append(("call", _i, args, elem))
+            if b.hook is not None:
+                b.hook(_i, _t, elem)
             if fault != "ok":
                 exc = make_fault(fault, (_i, elem))
                 b.raised[(_i, elem)] = exc
@@ -282,6 +288,10 @@ def build(case):
         elif nd.get("kwform") and pos:
             # the documented (deprecated) keyword spelling of the same declaration
             deco = ctype(requires=list(pos), optional=opt) if opt else ctype(requires=list(pos))
+        elif t == "datasource" and nd.get("prio"):
+            # optional node key "prio" on a datasource: the same option given to the datasource itself
+            # (spec factories pass it through, e.g. simple_file(path, prio=N))
+            deco = ctype(*pos, optional=opt, prio=int(nd["prio"])) if opt else ctype(*pos, prio=int(nd["prio"]))
         elif opt:
             deco = ctype(*pos, optional=opt)
         else:
@@ -512,8 +522,11 @@ def active_set(case, drv):
     return set(range(n))
 
 
-def execute(case, b, drv, observers=(), graphs=None):
+def execute(case, b, drv, observers=(), graphs=None, prepare=None):
     """Runs the real engine.  Returns (broker, escaped exception or None).
+
+    prepare: optional callable(broker) run on the fresh broker before the engine starts (what a caller
+    puts into the broker besides seeds, e.g. the execution context).
 
     graphs: optional dict kept by the caller across several calls; the graph object built for the
     driver is stored there and handed to the engine again (a caller that evaluates the same graph
@@ -533,6 +546,8 @@ def execute(case, b, drv, observers=(), graphs=None):
     broker.add_observer(recorder)
     for o in observers:
         broker.add_observer(o[0], o[1])
+    if prepare is not None:
+        prepare(broker)
     kind = drv["kind"]
     escaped = None
 
